@@ -456,6 +456,7 @@ func runCase(ci *caseIn, src evSource) (res result) {
 	var evsT, outsT []string
 	var obs []string
 	sawRevive := false
+	softDirect := ""
 	emit := func(e, o string) {
 		evsT = append(evsT, e)
 		outsT = append(outsT, o)
@@ -631,8 +632,9 @@ func runCase(ci *caseIn, src evSource) (res result) {
 			readerAlive = false
 			readExh = true
 			// the read loop hands the reconnect error to Read first and cancels the context next
-			if !waitUntil(isDone) {
-				abort("the read side exhausted its redial budget but the transport's context was never cancelled (F33: later Writes start new redial rounds)")
+			if !waitUntil(isDone) && softDirect == "" {
+				// not aborted: the rest of the history shows what later Writes do
+				softDirect = "the read side exhausted its redial budget but the transport's context was never cancelled (F33: later Writes start new redial rounds)"
 			}
 			return "OReadFail false"
 		}
@@ -824,6 +826,9 @@ func runCase(ci *caseIn, src evSource) (res result) {
 	res.obs = map[string]interface{}{"new": true, "trace": obs, "incs": incT, "dials": dt}
 	if sawRevive {
 		res.sig = sigRevive
+	}
+	if res.direct == "" {
+		res.direct = softDirect
 	}
 	d.mu.Lock()
 	d.kill = true
